@@ -7,4 +7,5 @@ let () =
   | _ :: "hashfn" :: _ -> D_hashfn.run ()
   | _ :: "vec" :: _ -> D_vec.run ()
   | _ :: "seq" :: _ -> D_seq.run ()
+  | _ :: "hashtbl" :: _ -> D_hashtbl.run ()
   | _ -> prerr_endline "usage: driver <area> < ops"; exit 2
